@@ -694,3 +694,293 @@ Proof. exists (wit_parts wit_cdag), false. vm_compute. split; [discriminate|refl
 Example table_fixed_on_witness :
   exists s', gf_compute_gen Z Zops true true 0 Ztols false [(1, 3, 5)%Z] (gf_prepared Z (wit_parts wit_none)) = Done ([0%Z], s').
 Proof. vm_compute. eexists. reflexivity. Qed.
+
+(** * Term lists: std::set with a tolerance comparator *)
+Section TermListTheory.
+Variable T : Type.
+Variables (comp : T -> T -> bool) (plus : T -> T -> T) (negl : T -> nat -> bool).
+
+(** ** facts that hold for ANY comparator *)
+Lemma split_lower_app t l : fst (split_lower T comp t l) ++ snd (split_lower T comp t l) = l.
+Proof.
+  induction l as [|e r IH]; [reflexivity|]. cbn [split_lower]. destruct (comp e t).
+  - destruct (split_lower T comp t r) as [a b]. cbn [fst snd app] in *. f_equal. exact IH.
+  - reflexivity.
+Qed.
+Lemma split_upper_app t l : fst (split_upper T comp t l) ++ snd (split_upper T comp t l) = l.
+Proof.
+  induction l as [|e r IH]; [reflexivity|]. cbn [split_upper]. destruct (comp t e).
+  - reflexivity.
+  - destruct (split_upper T comp t r) as [a b]. cbn [fst snd app] in *. f_equal. exact IH.
+Qed.
+
+(** std::set::insert either adds the term (the new set is a permutation of t :: l) or is blocked by a stored term *)
+Lemma set_insert_res_cases t l :
+  (exists l', set_insert_res T comp t l = Inserted T l' /\ Permutation l' (t :: l)) \/
+  (exists a e b, set_insert_res T comp t l = Blocked T a e b /\ l = a ++ e :: b /\ comp e t = false).
+Proof.
+  unfold set_insert_res. pose proof (split_upper_app t l) as Happ.
+  destruct (split_upper T comp t l) as [a b]. cbn [fst snd] in Happ.
+  destruct (rev a) as [|pred ra] eqn:Er.
+  - left. assert (a = []) by (apply (f_equal (@rev T)) in Er; rewrite rev_involutive in Er; exact Er).
+    subst a. cbn in Happ. subst b. eexists. split; [reflexivity|apply Permutation_refl].
+  - assert (Ha : a = rev ra ++ [pred]) by (apply (f_equal (@rev T)) in Er; rewrite rev_involutive in Er; exact Er).
+    destruct (comp pred t) eqn:Ec.
+    + left. eexists. split; [reflexivity|]. rewrite <- Happ. apply Permutation_sym. apply Permutation_middle.
+    + right. exists (rev ra), pred, b. split; [reflexivity|]. split; [|exact Ec].
+      rewrite <- Happ, Ha, <- app_assoc. reflexivity.
+Qed.
+
+(** ** the repaired add_term conserves every additive weight, for ANY comparator *)
+Section Conservation.
+Variable M : Type.
+Variables (madd : M -> M -> M) (m0 : M).
+Hypothesis madd_assoc : forall a b c, madd a (madd b c) = madd (madd a b) c.
+Hypothesis madd_comm : forall a b, madd a b = madd b a.
+Hypothesis madd_0 : forall a, madd m0 a = a.
+Variable w : T -> M.
+Hypothesis w_plus : forall a b, w (plus a b) = madd (w a) (w b).
+
+Definition total (l : list T) : M := fold_right (fun t acc => madd (w t) acc) m0 l.
+
+Lemma total_app a b : total (a ++ b) = madd (total a) (total b).
+Proof.
+  induction a as [|x a IH]; cbn [app total fold_right]; [rewrite madd_0; reflexivity|].
+  fold (total (a ++ b)). fold (total a). rewrite IH, madd_assoc. reflexivity.
+Qed.
+Lemma total_perm l l' : Permutation l l' -> total l = total l'.
+Proof.
+  induction 1 as [|x l l' _ IH|x y l|l l' l'' _ IH1 _ IH2]; cbn [total fold_right].
+  - reflexivity.
+  - fold (total l). fold (total l'). rewrite IH. reflexivity.
+  - fold (total l). rewrite !madd_assoc, (madd_comm (w y) (w x)). reflexivity.
+  - rewrite IH1. exact IH2.
+Qed.
+
+(** no term is dropped as negligible *)
+Hypothesis negl_never : forall t n, negl t n = false.
+
+Theorem add_term_loop_conserves : forall fuel t l, length l <= fuel ->
+  exists l', add_term_loop T comp plus negl fuel t l = (true, l') /\ total l' = madd (total l) (w t).
+Proof.
+  induction fuel as [|f IH]; intros t l Hf.
+  - destruct l; [|cbn in Hf; lia]. cbn. eexists. split; [reflexivity|].
+    cbn. rewrite madd_comm. reflexivity.
+  - cbn [add_term_loop]. destruct (set_insert_res_cases t l) as [[l' [E P]]|[a [e [b [E [Hl _]]]]]]; rewrite E.
+    + exists l'. split; [reflexivity|]. rewrite (total_perm _ _ P). cbn [total fold_right]. fold (total l).
+      apply madd_comm.
+    + rewrite negl_never.
+      destruct (IH (plus e t) (a ++ b)) as [l' [E' Ht]].
+      { subst l. rewrite app_length in *. cbn [length] in Hf. lia. }
+      exists l'. split; [exact E'|]. rewrite Ht, w_plus. subst l.
+      rewrite (total_perm (a ++ e :: b) (e :: a ++ b)) by (apply Permutation_sym, Permutation_middle).
+      cbn [total fold_right]. fold (total (a ++ b)).
+      rewrite madd_assoc. f_equal. apply madd_comm.
+Qed.
+End Conservation.
+
+(** ** the comparator is a strict weak order on the terms that occur: keys *)
+Section Keys.
+Variable Good : T -> Prop.
+Variable Key : Type.
+Variable key : T -> Key.
+Variable klt : Key -> Key -> Prop.
+Hypothesis klt_trans : forall a b c, klt a b -> klt b c -> klt a c.
+Hypothesis klt_irrefl : forall a, ~ klt a a.
+Hypothesis klt_total : forall a b, klt a b \/ a = b \/ klt b a.
+Hypothesis comp_key : forall a b, Good a -> Good b -> (comp a b = true <-> klt (key a) (key b)).
+Hypothesis plus_good : forall a b, Good a -> Good b -> key a = key b -> Good (plus a b) /\ key (plus a b) = key a.
+
+Definition tlt (a b : T) : Prop := klt (key a) (key b).
+Definition Inv (l : list T) : Prop := Forall Good l /\ StronglySorted tlt l.
+
+Lemma klt_asym a b : klt a b -> ~ klt b a.
+Proof. intros H1 H2. exact (klt_irrefl a (klt_trans _ _ _ H1 H2)). Qed.
+
+Lemma comp_false a b : Good a -> Good b -> (comp a b = false <-> ~ klt (key a) (key b)).
+Proof.
+  intros Ga Gb. pose proof (comp_key a b Ga Gb) as H. destruct (comp a b).
+  - split; [discriminate|]. intros Hn. exfalso. apply Hn. apply H. reflexivity.
+  - split; [|reflexivity]. intros _ Hk. apply H in Hk. discriminate Hk.
+Qed.
+
+Lemma SS_app (a b : list T) : StronglySorted tlt (a ++ b) <->
+  StronglySorted tlt a /\ StronglySorted tlt b /\ (forall x y, In x a -> In y b -> tlt x y).
+Proof.
+  induction a as [|x a IH]; cbn [app].
+  - split; [intros H; repeat split; [constructor|exact H|intros x y []]|intros [_ [H _]]; exact H].
+  - split.
+    + intros H. inversion H as [|x' l' Hs Hf]; subst. apply IH in Hs. destruct Hs as [Ha [Hb Hab]].
+      rewrite Forall_forall in Hf. repeat split.
+      * constructor; [exact Ha|]. apply Forall_forall. intros y Hy. apply Hf. apply in_or_app. left. exact Hy.
+      * exact Hb.
+      * intros x0 y [<-|Hx] Hy; [apply Hf; apply in_or_app; right; exact Hy|apply Hab; assumption].
+    + intros [Ha [Hb Hab]]. inversion Ha as [|x' l' Hs Hf]; subst. constructor.
+      * apply IH. repeat split; [exact Hs|exact Hb|]. intros x0 y Hx Hy. apply Hab; [right; exact Hx|exact Hy].
+      * apply Forall_forall. intros y Hy. apply in_app_or in Hy. destruct Hy as [Hy|Hy].
+        -- rewrite Forall_forall in Hf. apply Hf. exact Hy.
+        -- apply Hab; [left; reflexivity|exact Hy].
+Qed.
+
+(** the set splits around a key *)
+Definition below (t : T) (l : list T) : Prop := Forall (fun e => klt (key e) (key t)) l.
+Definition above (t : T) (l : list T) : Prop := Forall (fun e => klt (key t) (key e)) l.
+
+Lemma split_lower_below t a b : Forall Good (a ++ b) -> Good t -> below t a ->
+  (match b with [] => True | e :: _ => ~ klt (key e) (key t) end) ->
+  split_lower T comp t (a ++ b) = (a, b).
+Proof.
+  intros G Gt Ha Hb. induction a as [|x a IH]; cbn [app].
+  - destruct b as [|e b]; [reflexivity|]. cbn [split_lower].
+    replace (comp e t) with false; [reflexivity|]. symmetry. apply comp_false; [|exact Gt|exact Hb].
+    inversion G; assumption.
+  - cbn [split_lower]. inversion Ha as [|x' a' Hx Ha']; subst. cbn [app] in G. inversion G as [|x' l' Gx G']; subst.
+    replace (comp x t) with true by (symmetry; apply comp_key; assumption).
+    rewrite IH by assumption. reflexivity.
+Qed.
+
+Lemma split_upper_above t a b : Forall Good (a ++ b) -> Good t ->
+  Forall (fun e => ~ klt (key t) (key e)) a ->
+  (match b with [] => True | e :: _ => klt (key t) (key e) end) ->
+  split_upper T comp t (a ++ b) = (a, b).
+Proof.
+  intros G Gt Ha Hb. induction a as [|x a IH]; cbn [app].
+  - destruct b as [|e b]; [reflexivity|]. cbn [split_upper].
+    replace (comp t e) with true; [reflexivity|]. symmetry. apply comp_key; [exact Gt| |exact Hb].
+    inversion G; assumption.
+  - cbn [split_upper]. inversion Ha as [|x' a' Hx Ha']; subst. cbn [app] in G. inversion G as [|x' l' Gx G']; subst.
+    replace (comp t x) with false by (symmetry; apply comp_false; assumption).
+    rewrite IH by assumption. reflexivity.
+Qed.
+
+(** every sorted set splits as (below t) ++ (optional element with the key of t) ++ (above t) *)
+Lemma Inv_split t l : Inv l ->
+  exists a m b, l = a ++ m ++ b /\ below t a /\ above t b /\ (m = [] \/ exists e, m = [e] /\ key e = key t).
+Proof.
+  intros [G S]. induction l as [|x l IH].
+  - exists [], [], []. split; [reflexivity|]. split; [constructor|]. split; [constructor|]. left. reflexivity.
+  - inversion G as [|x' l' Gx G']; subst. inversion S as [|x' l' S' Hf]; subst.
+    destruct (IH G' S') as [a [m [b [El [Ha [Hb Hm]]]]]].
+    destruct (klt_total (key x) (key t)) as [Hlt|[Heq|Hgt]].
+    + exists (x :: a), m, b. split; [rewrite El; reflexivity|]. split; [constructor; assumption|]. split; [exact Hb|exact Hm].
+    + (* x has the key of t: everything after x is above *)
+      exists [], [x], l. split; [reflexivity|]. split; [constructor|]. split; [|right; exists x; split; [reflexivity|exact Heq]].
+      apply Forall_forall. intros y Hy. rewrite Forall_forall in Hf. specialize (Hf y Hy). unfold tlt in Hf.
+      rewrite <- Heq. exact Hf.
+    + exists [], [], (x :: l). split; [reflexivity|]. split; [constructor|]. split; [|left; reflexivity].
+      constructor; [exact Hgt|]. apply Forall_forall. intros y Hy. rewrite Forall_forall in Hf. specialize (Hf y Hy).
+      unfold tlt in Hf. eapply klt_trans; eassumption.
+Qed.
+
+Lemma below_not_above t l : below t l -> Forall (fun e => ~ klt (key t) (key e)) l.
+Proof. unfold below. rewrite !Forall_forall. intros H e He. apply klt_asym. apply H. exact He. Qed.
+
+Lemma Inv_insert t a b : Good t -> Inv (a ++ b) -> below t a -> above t b -> Inv (a ++ t :: b).
+Proof.
+  intros Gt [G S] Ha Hb. split.
+  - apply Forall_app in G. destruct G as [Ga Gb]. apply Forall_app. split; [exact Ga|constructor; assumption].
+  - apply SS_app in S. destruct S as [Sa [Sb Sab]]. apply SS_app. repeat split; [exact Sa| |].
+    + constructor; [exact Sb|exact Hb].
+    + intros x y Hx [<-|Hy].
+      * unfold below in Ha. rewrite Forall_forall in Ha. apply Ha. exact Hx.
+      * apply Sab; assumption.
+Qed.
+
+Lemma Inv_remove a e b : Inv (a ++ e :: b) -> Inv (a ++ b).
+Proof.
+  intros [G S]. split.
+  - apply Forall_app in G. destruct G as [Ga Gb]. inversion Gb; subst. apply Forall_app. split; assumption.
+  - apply SS_app in S. destruct S as [Sa [Sb Sab]]. inversion Sb; subst. apply SS_app. repeat split; [exact Sa|assumption|].
+    intros x y Hx Hy. apply Sab; [exact Hx|right; exact Hy].
+Qed.
+
+Lemma insert_between t a b : Good t -> Forall Good (a ++ b) -> below t a -> above t b ->
+  set_insert_res T comp t (a ++ b) = Inserted T (a ++ t :: b).
+Proof.
+  intros Gt G Ha Hb. unfold set_insert_res.
+  rewrite (split_upper_above t a b G Gt (below_not_above t a Ha)).
+  2:{ destruct b as [|e b]; [exact I|]. inversion Hb; assumption. }
+  destruct (rev a) as [|pred ra] eqn:Er.
+  - assert (a = []) by (apply (f_equal (@rev T)) in Er; rewrite rev_involutive in Er; exact Er). subst a. reflexivity.
+  - assert (Hin : In pred a) by (apply in_rev; rewrite Er; left; reflexivity).
+    replace (comp pred t) with true; [reflexivity|]. symmetry. apply comp_key; [|exact Gt|].
+    + apply Forall_app in G. destruct G as [Ga _]. rewrite Forall_forall in Ga. apply Ga. exact Hin.
+    + unfold below in Ha. rewrite Forall_forall in Ha. apply Ha. exact Hin.
+Qed.
+
+Lemma below_key t t' l : key t = key t' -> below t l -> below t' l.
+Proof. unfold below. intros E H. rewrite <- E. exact H. Qed.
+Lemma above_key t t' l : key t = key t' -> above t l -> above t' l.
+Proof. unfold above. intros E H. rewrite <- E. exact H. Qed.
+
+(** what add_term (as it is in the repository) does on a sorted set of Good terms: never refuses an insertion *)
+Theorem add_term_plain_spec t l : Inv l -> Good t ->
+  exists a b, 
+    (l = a ++ b /\ below t a /\ above t b /\ add_term_plain T comp plus negl t l = (true, a ++ t :: b)) \/
+    (exists e, l = a ++ e :: b /\ key e = key t /\ below t a /\ above t b /\
+       add_term_plain T comp plus negl t l =
+         (true, if negl (plus e t) (length (a ++ b) + 1) then a ++ b else a ++ plus e t :: b)).
+Proof.
+  intros HI Gt. pose proof HI as [G S].
+  destruct (Inv_split t l HI) as [a [m [b [El [Ha [Hb [Hm|[e [Hm Hk]]]]]]]]]; subst m; cbn [app] in El; subst l.
+  - exists a, b. left. repeat split; try assumption.
+    unfold add_term_plain, set_find.
+    rewrite (split_lower_below t a b G Gt Ha).
+    2:{ destruct b as [|e b]; [exact I|]. inversion Hb; subst. apply klt_asym. assumption. }
+    cbn [snd]. unfold set_insert.
+    destruct b as [|e b].
+    + rewrite (insert_between t a [] Gt G Ha Hb). reflexivity.
+    + replace (comp t e) with true.
+      * rewrite (insert_between t a (e :: b) Gt G Ha Hb). reflexivity.
+      * symmetry. apply comp_key; [exact Gt| |inversion Hb; assumption].
+        apply Forall_app in G. destruct G as [_ Gb]. inversion Gb; assumption.
+  - exists a, b. right. exists e. repeat split; try assumption.
+    assert (Ge : Good e). { apply Forall_app in G. destruct G as [_ Gb]. inversion Gb; assumption. }
+    unfold add_term_plain, set_find.
+    rewrite (split_lower_below t a (e :: b) G Gt Ha) by (rewrite Hk; apply klt_irrefl).
+    cbn [snd]. replace (comp t e) with false by (symmetry; apply comp_false; [exact Gt|exact Ge|rewrite Hk; apply klt_irrefl]).
+    (* erase *)
+    assert (Eer : set_erase T comp e (a ++ e :: b) = a ++ b).
+    { unfold set_erase. rewrite (split_lower_below e a (e :: b) G Ge (below_key t e a (eq_sym Hk) Ha)) by apply klt_irrefl.
+      change (e :: b) with ([e] ++ b).
+      rewrite (split_upper_above e [e] b).
+      - reflexivity.
+      - apply Forall_app in G. destruct G as [_ Gb]. exact Gb.
+      - exact Ge.
+      - constructor; [apply klt_irrefl|constructor].
+      - destruct b as [|y b]; [exact I|]. inversion Hb; subst. rewrite Hk. assumption. }
+    rewrite Eer.
+    destruct (negl (plus e t) (length (a ++ b) + 1)); [reflexivity|].
+    destruct (plus_good e t Ge Gt Hk) as [Gs Ks].
+    unfold set_insert. rewrite (insert_between (plus e t) a b Gs).
+    + reflexivity.
+    + apply Forall_app in G. destruct G as [Ga Gb]. inversion Gb; subst. apply Forall_app. split; assumption.
+    + apply (below_key t); [rewrite Ks; symmetry; exact Hk|exact Ha].
+    + apply (above_key t); [rewrite Ks; symmetry; exact Hk|exact Hb].
+Qed.
+
+Theorem add_term_plain_inv t l : Inv l -> Good t ->
+  exists l', add_term_plain T comp plus negl t l = (true, l') /\ Inv l'.
+Proof.
+  intros HI Gt. destruct (add_term_plain_spec t l HI Gt) as [a [b [[El [Ha [Hb E]]]|[e [El [Hk [Ha [Hb E]]]]]]]]; subst l.
+  - eexists. split; [exact E|]. apply Inv_insert; assumption.
+  - eexists. split; [exact E|]. pose proof (Inv_remove a e b HI) as HI'.
+    destruct (negl (plus e t) (length (a ++ b) + 1)); [exact HI'|].
+    assert (Ge : Good e). { destruct HI as [G _]. apply Forall_app in G. destruct G as [_ Gb]. inversion Gb; assumption. }
+    destruct (plus_good e t Ge Gt Hk) as [Gs Ks].
+    apply Inv_insert; [exact Gs|exact HI'| |].
+    + apply (below_key t); [rewrite Ks; symmetry; exact Hk|exact Ha].
+    + apply (above_key t); [rewrite Ks; symmetry; exact Hk|exact Hb].
+Qed.
+
+(** a sequence of add_term calls on a sorted set of Good terms: no insertion is refused *)
+Theorem add_terms_plain_no_refusal : forall ts n l, Inv l -> Forall Good ts ->
+  fst (add_terms_gen T comp plus negl false ts (n, l)) = n /\ Inv (snd (add_terms_gen T comp plus negl false ts (n, l))).
+Proof.
+  induction ts as [|t r IH]; intros n l HI G; [split; [reflexivity|exact HI]|].
+  inversion G as [|t' r' Gt Gr]; subst. cbn [add_terms_gen snd fst]. unfold add_term_gen.
+  destruct (add_term_plain_inv t l HI Gt) as [l' [E HI']]. rewrite E. apply IH; assumption.
+Qed.
+
+End Keys.
+End TermListTheory.
